@@ -119,6 +119,33 @@ def judge(ctx, case):
         want2 = later - x.mean() if t == "center" else (later - x.mean()) / x.std()
         if out2.shape != want2.shape or not np.allclose(out2, want2, rtol=1e-9, atol=1e-9 * magnitude(x) / (1 if t == "center" else x.std())):
             ctx.fail(t, case, f"{name}: later data are not transformed by the affine map fixed on the training data", "later_data")
+        # the same through a design: every column a term derives from the call — also the lower-order terms the
+        # library adds on its own for a three-way interaction — carries the training map on later data
+        if n >= 8 and case.get("alias") is not None:
+            from formulae import design_matrices
+
+            a = ["p", "q"] * n
+            b = ["r", "r", "s", "s"] * n
+            frame = pd.DataFrame({"y": np.arange(n, dtype=float), "x": x, "a": a[:n], "b": b[:n]})
+            new = pd.DataFrame({"x": later, "a": a[1: len(later) + 1], "b": b[2: len(later) + 2]})
+            tol2 = 1e-9 * magnitude(x) / (1 if t == "center" else x.std())
+            for formula in (f"y ~ {name}(x)", f"y ~ {name}(x) + a:b:{name}(x)", f"y ~ 0 + a:{name}(x)"):
+                try:
+                    with core.Guard():
+                        dm = design_matrices(formula, frame)
+                        got = np.asarray(dm.common.evaluate_new_data(new).design_matrix, dtype=float)
+                        labels = [l for term in dm.common.terms.values() for l in term.labels]
+                except Exception as e:  # pylint: disable=broad-except
+                    ctx.fail(t, case, f"{formula!r} raised {type(e).__name__}: {e}", "design:" + core.exc_key(e))
+                    continue
+                for j, lab in enumerate(labels):
+                    if f"{name}(x)" not in lab:
+                        continue
+                    rows = np.abs(got[:, j]) > tol2
+                    rows &= np.abs(want2) > tol2
+                    if not np.allclose(got[rows, j], want2[rows], rtol=1e-9, atol=tol2):
+                        ctx.fail(t, case, f"{formula!r}: column {lab!r} on later data does not carry the affine map fixed on the training data", "design:later_data")
+                        break
         return
 
     if t == "poly":
